@@ -76,6 +76,10 @@ type Case struct {
 	// NoEquiv: transports are not expected to agree (integer literal beyond int64: refused by the literal path only)
 	NoEquiv bool   `json:"noequiv,omitempty"`
 	Origin  string `json:"origin,omitempty"`
+	// Build (class "build"): "refuse" = the argument struct holds an ingredient the builder has no parser for (schema.Build
+	// must fail), "accept" = a supported neighbour (fields that are skipped, accepted tag options, the default name)
+	Build string `json:"build,omitempty"`
+	What  string `json:"what,omitempty"` // build cases: the ingredient (histogram label)
 }
 
 // ---- rendering the wire form into the transports ----
@@ -562,6 +566,10 @@ type Obs struct {
 	// Result: the response data (alias -> text the resolver answered), for requests with several selections
 	Result map[string]interface{} `json:"result,omitempty"`
 	// the same request through graphql.HTTPHandler (the repository's own Parse / PrepareQuery / Execute sequence)
+	// Selection.Args after PrepareQuery returned, before Execute (single-selection requests)
+	PrepSeen   bool   `json:"prep_seen,omitempty"`
+	Prep       *Val   `json:"prep,omitempty"`
+	PrepCalls  int32  `json:"prep_calls,omitempty"` // resolver calls counted at that moment (must be 0)
 	HTTPErr    string `json:"http_err,omitempty"`
 	HTTPDump   *Val   `json:"http_dump,omitempty"`
 	HTTPCallsF int32  `json:"http_calls_f"`
@@ -578,10 +586,12 @@ type Obs struct {
 
 type built struct {
 	schema *graphql.Schema
+	rt     reflect.Type
 	mty    *MTy
 	got    *reflect.Value
 	callsF *int32
 	callsG *int32
+	callsN *int32
 }
 
 func build(td *TyDesc) (b *built, err error) {
@@ -591,7 +601,7 @@ func build(td *TyDesc) (b *built, err error) {
 		}
 	}()
 	rt := td.reflectType()
-	b = &built{mty: mtyOf(rt), got: new(reflect.Value), callsF: new(int32), callsG: new(int32)}
+	b = &built{rt: rt, got: new(reflect.Value), callsF: new(int32), callsG: new(int32), callsN: new(int32)}
 	sb := schemabuilder.NewSchema()
 	for _, e := range enums {
 		sb.Enum(e.zero, e.mp)
@@ -615,6 +625,11 @@ func build(td *TyDesc) (b *built, err error) {
 		atomic.AddInt32(b.callsG, 1)
 		return args.X
 	})
+	// n has no argument struct: its ParseArguments is nilParseArguments
+	q.FieldFunc("n", func() int32 {
+		atomic.AddInt32(b.callsN, 1)
+		return 7
+	})
 	mu := sb.Mutation()
 	mu.FieldFunc("f", fn.Interface())
 	mu.FieldFunc("p", pfn.Interface(), schemabuilder.Paginated)
@@ -627,6 +642,7 @@ func build(td *TyDesc) (b *built, err error) {
 		return nil, err
 	}
 	b.schema = s
+	b.mty = mtyOf(rt)
 	return b, nil
 }
 
@@ -676,13 +692,28 @@ func (b *built) exec(s *Send) (o Obs) {
 			o = Obs{Stage: "args", Client: isClient(err), Err: err.Error()}
 			return
 		}
+		// what PrepareQuery stored in the selection, before anything executes
+		var prep *Val
+		prepSeen := false
+		prepCalls := atomic.LoadInt32(b.callsF) + atomic.LoadInt32(b.callsG)
+		if len(s.Sels) == 0 {
+			name := "f"
+			if s.Paginated {
+				name = "p"
+			}
+			var vals []reflect.Value
+			prepared(q.SelectionSet, name, b.rt, &vals)
+			if len(vals) == 1 && vals[0].IsValid() {
+				prepSeen, prep = true, dump(vals[0], b.mty)
+			}
+		}
 		e := graphql.NewExecutor(graphql.NewImmediateGoroutineScheduler())
 		res, err := e.Execute(ctx, b.schema.Query, nil, q)
 		if err != nil {
 			o = Obs{Stage: "exec", Client: isClient(err), Err: err.Error()}
 			return
 		}
-		o = Obs{Stage: "ok"}
+		o = Obs{Stage: "ok", PrepSeen: prepSeen, Prep: prep, PrepCalls: prepCalls}
 		if len(s.Sels) > 0 {
 			raw, _ := json.Marshal(res)
 			json.Unmarshal(raw, &o.Result)
@@ -955,6 +986,11 @@ func searchVariant(r *vh.Rng, seeds []Case) Case {
 		return c
 	}
 	sd := seeds[r.Intn(len(seeds))]
+	if sd.Class == "build" {
+		c := genBuildCase(r)
+		c.Origin = "search-build"
+		return c
+	}
 	k := r.Intn(10)
 	if k < 4 && sd.Class != "duplicate-field" && sd.Class != "default-on-required" {
 		if w := wireOf(&sd); w != nil {
@@ -1127,6 +1163,9 @@ func genLookAlike(r *vh.Rng) Case {
 }
 
 func genCase(r *vh.Rng) Case {
+	if fixedClass == "build" || (fixedClass == "" && r.Chance(9)) {
+		return genBuildCase(r)
+	}
 	if fixedClass == "" && r.Chance(12) {
 		return genLookAlike(r)
 	}
@@ -1294,7 +1333,7 @@ func main() {
 		if len(terms) == 0 {
 			return
 		}
-		run.WriteCasesV(fmt.Sprintf("cases_%d.v", start), []string{"Lib.Json", "Args.Model"}, "", "mismatches_from_sparse", 0, terms)
+		run.WriteCasesV(fmt.Sprintf("cases_%d.v", start), []string{"Lib.Json", "Args.Model", "Args.ModelBuilder", "Args.Check"}, "", "mismatches_from_sparse", 0, terms)
 		terms = nil
 		start = end
 	}
@@ -1303,16 +1342,37 @@ func main() {
 		c := &cases[idx]
 		run.LogCase(idx, c)
 		b, err := build(c.Ty)
-		if err != nil {
+		gty := rawCoq(c.Ty.reflectType())
+		if c.Class == "build" {
+			run.Hist("class:" + c.Class)
+			run.Hist("build:" + c.What + map[bool]string{true: ":refused", false: ":built"}[err != nil])
+			switch {
+			case c.Build == "refuse" && err == nil:
+				run.Fail(idx, "unsupported-argument-type-accepted", c.What, c)
+			case c.Build == "accept" && err != nil:
+				run.Fail(idx, "supported-argument-type-refused", c.What+": "+err.Error(), c)
+			}
+			if err != nil {
+				run.Count(js(c), true)
+				if !searching {
+					terms = append(terms, fmt.Sprintf("(%d, mk_bcase %s false None [] [])", idx, gty))
+					if len(terms) >= shard {
+						flush(idx + 1)
+					}
+				}
+				continue
+			}
+		} else if err != nil {
 			run.Fail(idx, "schema-build-failed", err.Error(), c)
 			continue
+		} else {
+			run.Hist("class:" + c.Class)
 		}
-		run.Hist("class:" + c.Class)
 		for _, f := range b.mty.Fields {
 			run.Hist("argtype:" + f.T.shape())
 		}
 		var obs []Obs
-		var sendTerms, multiTerms []string
+		var sendTerms, multiTerms, prepTerms []string
 		for k := range c.Sends {
 			s := &c.Sends[k]
 			ob := b.exec(s)
@@ -1346,6 +1406,19 @@ func main() {
 			case "ok":
 				if ob.CallsF != wantF || ob.CallsG != 1 {
 					run.Fail(idx, "resolver-call-count", fmt.Sprintf("calls f=%d g=%d %s", ob.CallsF, ob.CallsG, tag), c)
+				}
+				// arguments are parsed once, in PrepareQuery: what it stored is what the resolver receives, and no
+				// resolver has run by then
+				if !multi {
+					run.Hist("prepared-args-seen:" + map[bool]string{true: "yes", false: "no"}[ob.PrepSeen])
+					switch {
+					case ob.PrepCalls != 0:
+						run.Fail(idx, "resolver-ran-before-prepare-finished", fmt.Sprintf("calls=%d %s", ob.PrepCalls, tag), c)
+					case !ob.PrepSeen:
+						run.Fail(idx, "arguments-not-parsed-by-prepare", tag, c)
+					case !valEq(ob.Prep, ob.Dump):
+						run.Fail(idx, "prepared-arguments-differ-from-resolver-arguments", "prepared="+js(ob.Prep)+" resolver="+js(ob.Dump)+" "+tag, c)
+					}
 				}
 			}
 			// the repository's HTTP handler must behave like the Parse / PrepareQuery / Execute sequence above
@@ -1502,6 +1575,14 @@ func main() {
 				conn = "(Some " + coqFields(s.Conn) + ")"
 			}
 			sendTerms = append(sendTerms, fmt.Sprintf("(mk_send %s %s %s %s %s %s %s)", vh.CoqList(defs), coqVars(vars), coqFields(s.Args), place, conn, ot, vh.CoqZ(int64(ob.CallsF))))
+			switch {
+			case ob.Stage == "ok" && ob.PrepSeen && ob.Prep != nil:
+				prepTerms = append(prepTerms, "(PVal "+ob.Prep.coq()+")")
+			case ob.Stage == "parse" || ob.Stage == "args":
+				prepTerms = append(prepTerms, "PAbsent")
+			default:
+				prepTerms = append(prepTerms, "PNone")
+			}
 		}
 		// transports agree
 		if !c.NoEquiv && c.Class != "look-alike" {
@@ -1516,6 +1597,9 @@ func main() {
 			}
 		}
 		nontrivial := c.Class != "valid" || nonZero(c.Sent, b.mty)
+		if c.Class == "build" {
+			nontrivial = true
+		}
 		run.Count(js(c), nontrivial)
 		if len(obs) > 0 {
 			run.Sample(map[string]interface{}{"class": c.Class, "query": c.Sends[0].query(), "vars": c.Sends[0].Vars, "outcome": obs[0]})
@@ -1523,7 +1607,37 @@ func main() {
 		if searching {
 			continue
 		}
-		terms = append(terms, fmt.Sprintf("(%d, mk_case %s %s %s)", idx, b.mty.coq(), vh.CoqList(sendTerms), vh.CoqList(multiTerms)))
+		// the field without argument struct: no arguments, the case's literal arguments, one null argument
+		var probeTerms []string
+		if idx%3 == 0 {
+			probes := [][]LField{nil, {{"x", &Lit{K: "var", S: "nul"}}}, {}}
+			for k := range c.Sends {
+				if c.Sends[k].Transport == "literal" && len(c.Sends[k].Sels) == 0 && len(c.Sends[k].Args) > 0 {
+					probes = append(probes, c.Sends[k].Args)
+					break
+				}
+			}
+			for _, args := range probes {
+				stage, client, calls := b.probeNoArgs(args)
+				run.Hist("noargs-probe:" + stage)
+				outcome := map[string]int{"ok": 0, "parse": 1, "args": 2}
+				oc, known := outcome[stage]
+				if !known {
+					oc = 3
+					run.Fail(idx, "noargs-field-"+stage, js(args), c)
+				}
+				switch {
+				case stage == "ok" && len(args) > 0:
+					run.Fail(idx, "arguments-accepted-by-field-without-arguments", js(args), c)
+				case stage == "ok" && calls != 1, stage != "ok" && calls != 0:
+					run.Fail(idx, "resolver-call-count", fmt.Sprintf("n: stage=%s calls=%d %s", stage, calls, js(args)), c)
+				case (stage == "parse" || stage == "args") && !client:
+					run.Fail(idx, "rejection-not-a-client-error", "n: "+js(args), c)
+				}
+				probeTerms = append(probeTerms, fmt.Sprintf("(mk_nprobe %s %d %s)", coqFields(args), oc, vh.CoqZ(int64(calls))))
+			}
+		}
+		terms = append(terms, fmt.Sprintf("(%d, mk_bcase %s true (Some (mk_case %s %s %s)) %s %s)", idx, gty, b.mty.coq(), vh.CoqList(sendTerms), vh.CoqList(multiTerms), vh.CoqList(prepTerms), vh.CoqList(probeTerms)))
 		if len(terms) >= shard {
 			flush(idx + 1)
 		}
